@@ -10,6 +10,7 @@ pub mod registry;
 pub mod c01_compute;
 pub mod c02_fuse;
 pub mod c02_prec;
+pub mod c06_ifexpr;
 pub mod c08_scalar;
 pub mod c08_steps;
 pub mod c_scalar;
